@@ -28,7 +28,9 @@ def const_exprs(rng, n):
     return out
 
 
-NONCONST = ["my heart", "Tom Sawyer", "the world at 1", "Tom Sawyer taking 1", "0 times my heart", "1 plus Tom Sawyer", "-my heart", "roll my heart",
+NONCONST = ["null plus null", "1 plus null times null", "null with null, 1", "null plus 1", "1 minus null", "true plus 1", "\"a\" times 2", "mysterious minus 1",
+            "empty plus 1", "nothing times nothing", "0 times null", "null over 1, 2", "-null", "1 plus true, 2", "gone with 5",
+            "my heart", "Tom Sawyer", "the world at 1", "Tom Sawyer taking 1", "0 times my heart", "1 plus Tom Sawyer", "-my heart", "roll my heart",
             "x", "it", "x at 1", "F taking 1", "roll x", "0 times x", "0 times it", "0 times x at 1", "0 times F taking 1", "0 times roll x", "0 times 5, x",
             "2 minus 2 times x", "x times 0", "1 plus x", "not 1", "1 is 1", "1 and 2", "\"a\"", "\"a\" plus \"b\"", "mysterious", "null", "true", "1 plus \"a\"",
             "1 plus true", "-x", "1 minus 2, x", "0 times -1", "0 over -4", "1 over 0", "0 over 0", "-0", "1 is greater than 0", "empty"]
